@@ -139,14 +139,14 @@ theorem getR_map_cast {l : List Int} {i : Nat} (D : ℝ) :
   · simp [List.getD_eq_getElem?_getD, h]
   · simp [List.getD_eq_getElem?_getD, h]
 
-theorem length_imageCube {n : Nat} (hn : 2 ≤ n ∧ n ≤ 5) (m : Nat) {x : ℝ} (h0 : 0 ≤ x)
+theorem length_imageCube {n : Nat} (hn : Ev.DimOK n) (m : Nat) {x : ℝ} (h0 : 0 ≤ x)
     (h1 : x ≤ 1) : (imageCube n m x).length = n := by
   rw [imageCube_cellIdx hn m h0 h1, List.length_map]
   exact (C07_centres (mem_of_range hn) (digitsOf_valid n m _)).1
 
 /-- **C08 (Hölder, squared form)**: if `|x' - x''| ≤ 2^(-p n)` with `p ≤ m`, then
 `‖y(x') - y(x'')‖₂² ≤ (n+3)·4^(-p)` (on the cube `[-1/2,1/2]^n`). -/
-theorem sqDist_imageCube_le {n : Nat} (hn : 2 ≤ n ∧ n ≤ 5) {m p : Nat} (hp : p ≤ m) {x' x'' : ℝ}
+theorem sqDist_imageCube_le {n : Nat} (hn : Ev.DimOK n) {m p : Nat} (hp : p ≤ m) {x' x'' : ℝ}
     (h0' : 0 ≤ x') (h1' : x' ≤ 1) (h0'' : 0 ≤ x'') (h1'' : x'' ≤ 1)
     (hd : |x' - x''| ≤ 1 / ((2:ℝ)^n)^p) :
     sqDist (imageCube n m x') (imageCube n m x'') ≤ ((n:ℝ) + 3) / 4^p := by
